@@ -35,6 +35,42 @@ func NewMemStorage() Storage {
 func (m *memStorage) Open(ctx context.Context) (db.Db, error) { return m.d, nil }
 func (m *memStorage) Name() string                            { return "mem" }
 
+// PutRecord is one value handed to a store's Put.
+type PutRecord struct {
+	Prefix uint8
+	Key    string
+	Val    []byte
+}
+
+type recordingStorage struct {
+	inner Storage
+	log   *[]PutRecord
+}
+
+// RecordingStorage notes every value the library hands to Put of a handle it opened
+// (what was asked to be stored, whatever the backend makes of it).
+func RecordingStorage(inner Storage, log *[]PutRecord) Storage {
+	return &recordingStorage{inner, log}
+}
+func (r *recordingStorage) Name() string { return r.inner.Name() }
+func (r *recordingStorage) Open(ctx context.Context) (db.Db, error) {
+	d, err := r.inner.Open(ctx)
+	if err != nil {
+		return nil, err
+	}
+	return &recordingDb{Db: d, log: r.log}, nil
+}
+
+type recordingDb struct {
+	db.Db
+	log *[]PutRecord
+}
+
+func (r *recordingDb) Put(ctx context.Context, key []byte, val []byte) error {
+	*r.log = append(*r.log, PutRecord{Prefix: r.Db.Prefix(), Key: string(key), Val: append([]byte{}, val...)})
+	return r.Db.Put(ctx, key, val)
+}
+
 type fsStorage struct {
 	dir    string
 	binary bool
